@@ -253,7 +253,7 @@ class CallMixin:
                 continue
             if i < len(pos) and pos[i].kind == "star":
                 star_src = pos[i].args[0]
-                scope.vars[p] = self.mk_index(star_src, const(star_off))
+                scope.vars[p] = self.mk_proj(star_src, star_off)   # `*r` unpacks r like `a, b = r`
                 star_off += 1
                 continue
             if d is not None:
@@ -368,7 +368,7 @@ class CallMixin:
                     vals[fname] = pos[i]
                     i += 1
                 elif i < len(pos) and pos[i].kind == "star":
-                    vals[fname] = self.mk_index(pos[i].args[0], const(star_off))
+                    vals[fname] = self.mk_proj(pos[i].args[0], star_off)   # `*r` unpacks r like `a, b = r`
                     star_off += 1
                 elif "**" in kw:
                     src = kw["**"]
